@@ -29,6 +29,8 @@ func skipForgeries(depth int, m *big.Int) []strategy {
 				alias := new(big.Int).Add(v, lim) // same low bits, skip digit 1
 				return nonBoolean(v, nn, alias, 0, m)
 			}, fired)}
+		}, func(indices []*big.Int, valid bool) bool {
+			return !valid && anyIndex(indices, func(v *big.Int) bool { return v.Cmp(lim) < 0 })
 		}},
 		// a padding index (skip bit set) decomposed with the skip digit cleared
 		{"Nskip0", func(fired *int) rmon.Hints {
@@ -43,6 +45,8 @@ func skipForgeries(depth int, m *big.Int) []strategy {
 				}
 				return nonBoolean(v, nn, alias, j, m)
 			}, fired)}
+		}, func(indices []*big.Int, valid bool) bool {
+			return !valid && anyIndex(indices, func(v *big.Int) bool { return v.Cmp(lim) >= 0 && v.BitLen() <= n })
 		}},
 		// the excess carried by the skip digit itself
 		{"NskipDigit", func(fired *int) rmon.Hints {
@@ -52,6 +56,8 @@ func skipForgeries(depth int, m *big.Int) []strategy {
 				}
 				return nonBoolean(v, nn, new(big.Int).And(v, new(big.Int).Sub(lim, big.NewInt(1))), depth, m)
 			}, fired)}
+		}, func(indices []*big.Int, valid bool) bool {
+			return !valid && anyIndex(indices, func(v *big.Int) bool { return v.BitLen() > n })
 		}},
 	}
 }
@@ -77,7 +83,7 @@ func runC02(o *cli.Opts, run *evid.Run) {
 		}
 		dims = append(dims, dim{8, 8}, dim{20, 4})
 	}
-	perClass := o.Pick(10, 40)
+	perClass := o.Pick(10, 24)
 	auditOK := true
 	strategiesFor := func(d int) []strategy {
 		s := indexStrategies(d+1, ref.R)
@@ -120,7 +126,7 @@ func runC02(o *cli.Opts, run *evid.Run) {
 			if !ok {
 				return
 			}
-			judge(run, sys, key, "gadget/"+j.class, c.Valid, delGadgetAssign(c), strat, c.Sig(), c.Describe())
+			judge(run, sys, key, "gadget/"+j.class, c.Valid, delGadgetAssign(c), strat, c.Indices, c.Sig(), c.Describe())
 		})
 	})
 	run.Stage("gadget")
@@ -141,7 +147,7 @@ func runC02(o *cli.Opts, run *evid.Run) {
 					continue
 				}
 				c := maskCase(gen.RNG(o.Seed, key), 4, b, mask)
-				judge(run, sys, key, fmt.Sprintf("masks/b=%d", b), c.Valid, delGadgetAssign(c), nil, c.Sig(), c.Describe())
+				judge(run, sys, key, fmt.Sprintf("masks/b=%d", b), c.Valid, delGadgetAssign(c), nil, c.Indices, c.Sig(), c.Describe())
 				if !c.Valid {
 					run.Violate(key+"/gen", "monitor bug: mask case judged invalid by the oracle", c.Describe())
 				}
@@ -198,7 +204,7 @@ func runC02(o *cli.Opts, run *evid.Run) {
 					valid = false
 				}
 			}
-			judge(run, sys, key, "full/"+j.class, valid, delFullAssign(c, delHash(c)), strat, c.Sig(), c.Describe())
+			judge(run, sys, key, "full/"+j.class, valid, delFullAssign(c, delHash(c)), strat, c.Indices, c.Sig(), c.Describe())
 		})
 	})
 	run.Stage("full")
